@@ -150,13 +150,13 @@ func trimmerStripsWheneverWriterAdds(c *core.Ctx, rule string) {
 		return
 	}
 	n := 0
-	for _, site := range privateCallSites(writer) {
+	// the conditions under which the writer is reached for status value arg at
+	// site; where the site is in a private helper that is handed the status, the
+	// helper's own call sites are judged as well (the guard may be in the caller)
+	var judge func(site ssa.CallInstruction, arg ssa.Value, depth int)
+	judge = func(site ssa.CallInstruction, arg ssa.Value, depth int) {
 		fn := site.Parent()
-		if outermost(fn) == em {
-			continue
-		}
-		n++
-		arg := facts.Resolve(site.Common().Args[1])
+		arg = facts.Resolve(arg)
 		bad := ""
 		for _, cd := range facts.CondsAt(site.Block()) {
 			x, op, y, ok := facts.Cmp(cd)
@@ -170,7 +170,27 @@ func trimmerStripsWheneverWriterAdds(c *core.Ctx, rule string) {
 			}
 			bad = "a condition other than `status != 0` guards the removal"
 		}
+		n++
 		c.Check(bad == "", rule, fnName(outermost(fn))+"/strips-whenever-status-present", site.Pos(), "the status prefix is removed whenever a status is present", "the status prefix that httpError.Error adds for every status is removed from the message only under a further condition ("+bad+"): for a status that fails it the message keeps its prefix and gains another on every hop")
+		if p, isP := arg.(*ssa.Parameter); isP && depth > 0 && p.Parent() == fn && fn.Parent() == nil {
+			for pi, q := range fn.Params {
+				if q != p {
+					continue
+				}
+				for _, up := range privateCallSites(fn) {
+					if outermost(up.Parent()) == em || pi >= len(up.Common().Args) {
+						continue
+					}
+					judge(up, up.Common().Args[pi], depth-1)
+				}
+			}
+		}
+	}
+	for _, site := range privateCallSites(writer) {
+		if outermost(site.Parent()) == em {
+			continue
+		}
+		judge(site, site.Common().Args[1], 2)
 	}
 	if n == 0 {
 		c.Note(rule + ": no trimmer uses the status-prefix writer")
